@@ -73,6 +73,12 @@ TEMPLATES = {
     "shadow_param": "{A} = 3\n\n\ndef scale({A}, {B}=2):\n    return {A} * {B}\n\n\nprint(scale(inp()), {A})\n",
     "shadow_comp": "{A} = 3\n\n\ndef build(n):\n    return [{A} for {A} in range(n)]\n\n\nprint(build(inp() + 3), {A})\n",
     "shadow_class": "{A} = 3\n\n\nclass Holder:\n    {A} = 7\n\n    def get(self):\n        {B} = self.{A}\n        return {B}\n\n\nprint(Holder().get(), {A})\n",
+    "vararg": "def main(n):\n    {A} = [n, n + 1]\n\n    def inner(*{A}):\n        return sum({A})\n\n    return inner(1, 2), {A}\n\n\nprint(main(inp()))\n",
+    "kwarg": "def main(n):\n    {A} = {'scale': n}\n\n    def inner(**{A}):\n        return sorted({A})\n\n    return inner(alpha=1, beta=2), {A}\n\n\nprint(main(inp()))\n",
+    "kwonly": "def main(n):\n    {A} = n + 1\n\n    def inner(*, {A}=5, {B}=6):\n        return {A} * 10 + {B}\n\n    return inner({B}=1), {A}\n\n\nprint(main(inp()))\n",
+    "posonly": "def main(n):\n    {A} = n + 1\n\n    def inner({A}, /, {B}=2):\n        return {A} * 10 + {B}\n\n    return inner(3), {A}\n\n\nprint(main(inp()))\n",
+    "class_scope": "def main(n):\n    {A} = n + 1\n\n    class Inner:\n        {A} = 7\n        {B} = {A} + 1\n\n    return Inner.{A}, Inner.{B}, {A}\n\n\nprint(main(inp()))\n",
+    "lambda_param": "def main(n):\n    {A} = n + 1\n    {B} = lambda {A}: {A} * 2\n    return {B}(5), {A}\n\n\nprint(main(inp()))\n",
     "nested_loops": "def main(n):\n    {B} = []\n    for {A} in range(n):\n        inner = [1, 2]\n        {B}.extend(inner)\n    return {B}\n\n\nprint(main(inp() + 3))\n",
 }
 
